@@ -5,6 +5,7 @@ post-dominance between two statements of one function can be decided on the
 statement tree: see `dominates` / `postdominates`.
 """
 import ast
+import copy
 
 BLOCK_FIELDS = ("body", "orelse", "finalbody", "handlers")
 
@@ -359,6 +360,163 @@ def _inline_once(f, keep=None):
         changed = True
         break      # parents/stores are stale: recompute
     return changed
+
+
+def nest_guard_clauses(fnode):
+    """Normal form for guard clauses inside loops: at the top level (tail) of a loop body
+
+        if c: A; continue          becomes          if c: A
+        REST                                         else: REST
+
+    (`continue` as the last statement of an iteration is a no-op, so both are the same program).
+    Returns a transformed deep copy; the original tree is not touched."""
+    fnode = copy.deepcopy(fnode)
+
+    def fix_tail(stmts):
+        stmts = list(stmts)
+        while stmts and isinstance(stmts[-1], ast.Continue):
+            stmts.pop()
+        for i, st in enumerate(stmts):
+            if isinstance(st, ast.If) and not st.orelse and st.body and isinstance(st.body[-1], ast.Continue):
+                rest = fix_tail(stmts[i + 1:])
+                body = st.body[:-1]
+                if not body:
+                    body = [ast.copy_location(ast.Pass(), st)]
+                new_if = ast.copy_location(ast.If(test=st.test, body=body, orelse=rest), st)
+                return stmts[:i] + [new_if]
+        if stmts and isinstance(stmts[-1], ast.If):
+            last = stmts[-1]
+            last.body = fix_tail(last.body) or [ast.copy_location(ast.Pass(), last)]
+            last.orelse = fix_tail(last.orelse)
+        return stmts
+
+    for n in ast.walk(fnode):
+        if isinstance(n, (ast.For, ast.While)):
+            n.body = fix_tail(n.body) or [ast.copy_location(ast.Pass(), n)]
+    ast.fix_missing_locations(fnode)
+    return fnode
+
+
+def inline_statement_calls(p, fi, fnode=None, depth=2):
+    """Normal form for extracted procedures: a statement `helper(a, b)` / `self._helper(a)` /
+    `Cls._helper(self, a)` whose callee is a project function that returns nothing, binds no local
+    that clashes with the caller and whose arguments are side-effect-free expressions is replaced
+    by the callee's body with the parameters substituted (beta reduction).  Returns a transformed
+    deep copy of fnode (default: fi.node)."""
+    fnode = copy.deepcopy(fnode if fnode is not None else fi.node)
+
+    def simple(e):
+        return isinstance(e, (ast.Name, ast.Constant)) or (isinstance(e, ast.Attribute) and simple(e.value)) \
+            or (isinstance(e, ast.Subscript) and simple(e.value) and simple(e.slice))
+
+    def resolve(call):
+        f = call.func
+        if isinstance(f, ast.Name):
+            r = p.resolve_name(fi.module, f.id)
+            if r and r[0] == "func":
+                return r[1], None
+        if isinstance(f, ast.Attribute) and isinstance(f.value, ast.Name) and f.value.id == "self" and fi.cls is not None:
+            try:
+                m = p.find_method(fi.cls, f.attr)
+            except ValueError:
+                m = None
+            if m is not None:
+                return m, ast.Name(id="self", ctx=ast.Load())
+        return None, None
+
+    def try_inline(st, caller_names):
+        if not (isinstance(st, ast.Expr) and isinstance(st.value, ast.Call)):
+            return None
+        call = st.value
+        callee, selfarg = resolve(call)
+        if callee is None or callee.node is fi.node:
+            return None
+        cn = callee.node
+        if any(isinstance(x, (ast.Return, ast.Yield, ast.YieldFrom, ast.FunctionDef, ast.Lambda, ast.Global, ast.Nonlocal))
+               for b in cn.body for x in ast.walk(b)):
+            return None
+        if cn.args.vararg or cn.args.kwarg or any(isinstance(a, ast.Starred) for a in call.args) \
+                or any(k.arg is None for k in call.keywords):
+            return None
+        if any(d.id in ("staticmethod", "classmethod", "property") for d in cn.decorator_list if isinstance(d, ast.Name)) \
+                and selfarg is not None:
+            selfarg = None if any(isinstance(d, ast.Name) and d.id == "staticmethod" for d in cn.decorator_list) else selfarg
+        params = [a.arg for a in cn.args.posonlyargs + cn.args.args]
+        args = ([selfarg] if selfarg is not None else []) + list(call.args)
+        if len(args) > len(params):
+            return None
+        bind = dict(zip(params, args))
+        for k in call.keywords:
+            if k.arg not in params or k.arg in bind:
+                return None
+            bind[k.arg] = k.value
+        defaults = callee.defaults()
+        for prm in params + [a.arg for a in cn.args.kwonlyargs]:
+            if prm not in bind:
+                if prm in defaults and isinstance(defaults[prm], ast.Constant):
+                    bind[prm] = defaults[prm]
+                else:
+                    return None
+        if not all(simple(v) for v in bind.values()):
+            return None
+        stored = {x.id for b in cn.body for x in ast.walk(b) if isinstance(x, ast.Name) and isinstance(x.ctx, ast.Store)}
+        if stored & (set(params) | caller_names):
+            return None
+
+        class Sub(ast.NodeTransformer):
+            def visit_Name(self, n):
+                if n.id in bind and isinstance(n.ctx, ast.Load):
+                    return ast.copy_location(copy.deepcopy(bind[n.id]), n)
+                return n
+        body = [b for b in cn.body if not (isinstance(b, ast.Expr) and isinstance(b.value, ast.Constant))]
+        out = []
+        for b in body:
+            nb = Sub().visit(copy.deepcopy(b))
+            for x in ast.walk(nb):
+                if hasattr(x, "lineno"):
+                    x.lineno = st.lineno
+                    x.end_lineno = getattr(st, "end_lineno", st.lineno)
+            out.append(nb)
+        return out or [ast.copy_location(ast.Pass(), st)]
+
+    for _ in range(depth):
+        changed = False
+        caller_names = {x.id for x in ast.walk(fnode) if isinstance(x, ast.Name)} | {a.arg for a in fnode.args.args}
+        for n in ast.walk(fnode):
+            for field in ("body", "orelse", "finalbody"):
+                blk = getattr(n, field, None)
+                if not isinstance(blk, list) or not blk or not isinstance(blk[0], ast.stmt):
+                    continue
+                new = []
+                for st in blk:
+                    rep = try_inline(st, caller_names)
+                    if rep is None:
+                        new.append(st)
+                    else:
+                        new.extend(rep)
+                        changed = True
+                setattr(n, field, new)
+        if not changed:
+            break
+    ast.fix_missing_locations(fnode)
+    return fnode
+
+
+def fold_const_getattr(fnode):
+    """`getattr(x, "name")` with a literal name is the attribute `x.name` (deep copy returned)."""
+    fnode = copy.deepcopy(fnode)
+
+    class G(ast.NodeTransformer):
+        def visit_Call(self, n):
+            self.generic_visit(n)
+            if isinstance(n.func, ast.Name) and n.func.id == "getattr" and len(n.args) == 2 and not n.keywords \
+                    and isinstance(n.args[1], ast.Constant) and isinstance(n.args[1].value, str) \
+                    and n.args[1].value.isidentifier():
+                return ast.copy_location(ast.Attribute(value=n.args[0], attr=n.args[1].value, ctx=ast.Load()), n)
+            return n
+    fnode = G().visit(fnode)
+    ast.fix_missing_locations(fnode)
+    return fnode
 
 
 def expand_delegation(p, fi, depth=2):
